@@ -440,6 +440,14 @@ class Martingale(Lemma):
                 vc.interp.setattr(model, "r", SpVal(r))
                 drift_orig = to_sp(vc.method(model, "process_drift"))
                 vc.check_zero(nm + "::after-a-rate-update:direct-simulation-drift-follows-the-new-rate", lambda: sp.simplify((drift_before - drift_orig) - (r2 - r)), samp_r)
+                # ... also through a simulation process built (and already asked for its drift) BEFORE the update
+                vc.interp.hooks["rpylib.distribution.univariate.uniform:Uniform.__init__"] = lambda it_, f, b: None
+                proc = vc.new("rpylib.process.levyprocess:LevyProcess", model)
+                p_before = to_sp(vc.method(proc, "process_drift"))
+                vc.interp.setattr(model, "r", SpVal(r2))
+                p_after = to_sp(vc.method(proc, "process_drift"))
+                vc.interp.setattr(model, "r", SpVal(r))
+                vc.check_zero(nm + "::after-a-rate-update:drift-of-an-existing-simulation-process-follows-the-new-rate", lambda: sp.simplify((p_after - p_before) - (r2 - r)), samp_r)
             vc.interp.setattr(model, "r", SpVal(r))
             # ... and the spot is an attribute too: every route starts from the model's CURRENT spot
             s2 = S("spot_new", positive=True)
@@ -477,6 +485,13 @@ class Martingale(Lemma):
             cfv = complex(m.log_characteristic_function(t=T, x=-1j))
             return (abs(cfv - s_new * fwd) > 1e-9 * s_new or abs(np.exp(m.x0_value()) - s_new) > 1e-9 * s_new,
                     {"model": repr(m), "spot_after_update": s_new, "E[S_T]_from_the_characteristic_function": cfv.real, "forward_of_the_new_spot": float(s_new * fwd), "exp(x0_value)": float(np.exp(m.x0_value()))})
+        if "existing-simulation-process" in clause:
+            from rpylib.process.levyprocess import LevyProcess
+            pr = LevyProcess(m)
+            d0 = float(pr.process_drift())
+            m.r = m.r + 0.02
+            d1 = float(pr.process_drift())
+            return (abs((d1 - d0) - 0.02) > 1e-12, {"model": repr(m), "process_drift_of_the_process_before": d0, "after_r_plus_0.02": d1})
         if "after-a-rate-update:direct-simulation" in clause:
             d0 = float(m.process_drift())
             m.r = m.r + 0.02
@@ -500,7 +515,9 @@ def LATE_UNITS():
     # representation changes (path-independent, reversible) and the drift of the Markov-chain approximation are the
     # contracts of C04 over the abstract measure layer
     from contracts import c04
-    return [c04.Representations(), c04.Initialisation(), c04.MeanIdentity()]
+    # ... and the chain constructor's clause "truncate, then compensate: the mean of the truncated process is preserved", also
+    # when a drift accessor of the caller's triplet was evaluated before (whatever it computed for the untruncated measure)
+    return [c04.Representations(), c04.Initialisation(), c04.MeanIdentity(), c04.ChainConstructor()]
 
 
 ASSUMPTIONS = ["A1: floats are mathematical reals", "A4: sympy's differentiation, definite integration (conds='none': the parameter regime guarantees convergence), limits and simplification",
